@@ -31,7 +31,15 @@ def preload():
 # C07 monitor (wraps detect_loops inside the run)
 # ---------------------------------------------------------------------------
 class LoopMonitor:
-    def __init__(self):
+    """Invariants of property C07 evaluated on the graph returned by
+    detect_loops (and recursively on every loop body).  `src_mult` is the
+    number of times each event name occurs in the *source definition*: the
+    extraction must not duplicate an event, so a type may occur in the
+    nesting at most as often as it occurs in the source (exactly once for
+    fragment F, whose names are distinct)."""
+
+    def __init__(self, src_mult: dict | None = None):
+        self.src_mult = src_mult or {}
         self.violations: list = []
         self.calls = 0
         self.loops = 0
@@ -90,10 +98,11 @@ class LoopMonitor:
 
         check_graph(out, "top", 0)
         obs = sorted(t for t in orig.nodes if not is_dummy(t))
-        if sorted(seen) != obs:
-            lost = sorted(set(obs) - set(seen))
-            dup = sorted({t for t in seen if seen.count(t) > 1})
-            extra = sorted(set(seen) - set(obs))
+        lost = sorted(set(obs) - set(seen))
+        dup = sorted({t for t in seen
+                      if seen.count(t) > max(1, self.src_mult.get(t, 1))})
+        extra = sorted(set(seen) - set(obs))
+        if lost or dup or extra:
             self.violations.append(
                 ["conservation", {"lost": lost, "dup": dup, "extra": extra}]
             )
@@ -185,7 +194,11 @@ def hash_order_signature(names, uuid_seed: int) -> str:
 # ---------------------------------------------------------------------------
 def _child_learn(unit: dict) -> dict:
     core.silence_child_output()
-    mon = LoopMonitor()
+    ast = unit.get("ast") or gen_defs.load_workload(unit["wid"])
+    mult: dict = {}
+    for n in puml_sem.event_name_list(ast):
+        mult[n] = mult.get(n, 0) + 1
+    mon = LoopMonitor(mult)
     sm = seams_mod.Seams(
         uuid_seed=unit["uuid_seed"],
         clock_origin_s=unit.get("clock_origin_s", 1704067200),
@@ -195,7 +208,6 @@ def _child_learn(unit: dict) -> dict:
     seams_mod.install(sm, detect_loops_monitor=mon)
     from tel2puml.pv_to_puml.pv_to_puml import pv_to_puml_string
 
-    ast = unit.get("ast") or gen_defs.load_workload(unit["wid"])
     kin = unit.get("kmax_in", 2)
     rec: dict = {"wid": unit.get("wid"), "sched": unit.get("sched")}
     try:
